@@ -1163,6 +1163,9 @@ func (x *tr) expr(e ast.Expr) string {
 			if tv, ok := x.p.TypesInfo.Types[z.Fun]; ok && tv.IsType() && len(z.Args) == 1 && x.kindOf(z.Args[0]) == "gslice" && x.coqType(tv.Type) == "bytes" {
 				return "(sl_bytes " + x.expr(z.Args[0]) + ")" // string(b)
 			}
+			if tv, ok := x.p.TypesInfo.Types[z.Fun]; ok && tv.IsType() && len(z.Args) == 1 && x.t.strict && x.kindOf(z.Args[0]) == "bytes" && x.coqType(tv.Type) == "bytes" {
+				return x.expr(z.Args[0]) // string(b) / []byte(s) where both are byte strings of the model (a copy: values)
+			}
 			if tv, ok := x.p.TypesInfo.Types[z.Fun]; ok && tv.IsType() && len(z.Args) == 1 {
 				// conversion T(x) between integer types: the identity on Z (DESIGN.md 2.1: int, Level,
 				// Flags are unbounded), but only where Go cannot wrap: to int / int64 or to a type of the
